@@ -174,6 +174,11 @@ def finish(ctx, floor, explanation, trusted_base, assumptions, level='other', ex
     for n in ctx.notes:
         print('  NOTE: %s' % n)
     code = 0
+    if getattr(ctx, 'outside_model', None):
+        # the mechanism was re-represented in a form the model of this property does not cover: the groups concerned are undecided, nothing is claimed, and
+        # the floor (a guard against a silently vanished analysis) does not apply - the reason is printed and recorded
+        print('  NOTE: outside the model of this check: %s' % ctx.outside_model)
+        floor = 0
     if n_dec < floor:
         print('ANALYSIS-ERROR: property=%s only %d obligations decided, floor is %d (anchors moved or '
               'constructs left the transfer tables)' % (prop, n_dec, floor))
